@@ -7,8 +7,8 @@ package main
 //
 //	series     a SET of result records of Series.tla with Expected(set, policy,
 //	           table) for one duplicate policy.  The records are added to a real
-//	           benchseries.Builder in EVERY order (all permutations up to 5
-//	           records, seeded samples beyond), one Result per record, adjacent
+//	           benchseries.Builder in EVERY order (all permutations up to 4
+//	           records, 40 seeded permutations beyond), one Result per record, adjacent
 //	           records merged into multi-unit Results, and through the file-level
 //	           API (benchfmt.Writer -> files -> Builder.AddFiles, split over
 //	           several files).  AllComparisonSeries is called repeatedly on each
@@ -272,7 +272,7 @@ func serPerms(n int, rnd *rand.Rand) [][]int {
 	for i := range id {
 		id[i] = i
 	}
-	if n <= 5 {
+	if n <= 4 {
 		var out [][]int
 		var rec func(k int)
 		rec = func(k int) {
@@ -295,7 +295,7 @@ func serPerms(n int, rnd *rand.Rand) [][]int {
 		rev[i] = n - 1 - i
 	}
 	out = append(out, rev)
-	for len(out) < 60 {
+	for len(out) < 40 {
 		out = append(out, rnd.Perm(n))
 	}
 	return out
